@@ -7,7 +7,7 @@ use std::collections::BTreeMap;
 use std::sync::{Arc, RwLock};
 use trust_hir::db::{Database, FileId, SemanticDatabase, SourceDatabase};
 
-const NFILES: usize = 5;
+const NFILES: usize = 8;
 
 /// Pools of texts per file: valid, changed signature, renamed symbol, syntax error, empty, duplicate declaration.
 fn pool(file: usize) -> Vec<&'static str> {
@@ -45,6 +45,25 @@ fn pool(file: usize) -> Vec<&'static str> {
             "TYPE Point : STRUCT x INT; END_STRUCT\nTYPE Color : (Red, ; END_TYPE\n",
             "",
             "TYPE Point : STRUCT x : INT; y : DINT; END_STRUCT END_TYPE\nTYPE Point : INT; END_TYPE\nTYPE Color : (Red, Green); END_TYPE\n",
+        ],
+        // files 6-8: second providers of names that files 1-4 also declare, with other signatures, so the cross-file
+        // import order decides what a use resolves to
+        5 => vec![
+            "FUNCTION Helper : BOOL\nVAR_INPUT a : DINT; END_VAR\nHelper := a > DINT#0;\nEND_FUNCTION\n",
+            "FUNCTION Helper : LREAL\nVAR_INPUT a : LREAL; c : BOOL; END_VAR\nHelper := a;\nEND_FUNCTION\n",
+            "",
+            "FUNCTION Other : DINT\nOther := DINT#7;\nEND_FUNCTION\n",
+        ],
+        6 => vec![
+            "FUNCTION_BLOCK Counter\nVAR_INPUT enable : DINT; END_VAR\nVAR_OUTPUT count : BOOL; END_VAR\nEND_FUNCTION_BLOCK\n",
+            "",
+            "TYPE Point : STRUCT x : LREAL; w : BOOL; END_STRUCT END_TYPE\n",
+            "TYPE Color : (Red, Cyan, Magenta); END_TYPE\nFUNCTION_BLOCK Counter\nVAR_OUTPUT count : LREAL; END_VAR\nEND_FUNCTION_BLOCK\n",
+        ],
+        7 => vec![
+            "PROGRAM Aux\nVAR v : INT; b : BOOL; c : Counter; p : Point; END_VAR\nv := Helper(a := DINT#1);\nb := Helper(a := DINT#1);\nc();\nv := c.count;\np.x := INT#1;\nEND_PROGRAM\n",
+            "",
+            "PROGRAM Aux\nVAR r : LREAL; e : Color; END_VAR\nr := Helper(a := r, c := TRUE);\ne := Color#Cyan;\nEND_PROGRAM\n",
         ],
         _ => vec![
             "CONFIGURATION Conf\nVAR_GLOBAL gval : DINT := 5; END_VAR\nPROGRAM P1 : Main;\nEND_CONFIGURATION\n",
@@ -176,6 +195,15 @@ fn fresh_from(texts: &BTreeMap<usize, String>) -> Database {
     db
 }
 
+/// a brand-new database loaded in descending file order: must answer like the one loaded in ascending order
+fn fresh_from_rev(texts: &BTreeMap<usize, String>) -> Database {
+    let mut db = Database::new();
+    for (f, t) in texts.iter().rev() {
+        db.set_source_text(FileId(*f as u32 + 1), t.clone());
+    }
+    db
+}
+
 pub struct Stats {
     compared: u64,
     queries: u64,
@@ -249,6 +277,7 @@ pub fn run_history(ops: &[Op], every: usize, concurrent: bool) -> Result<Stats, 
         if (oi + 1) % every == 0 || oi + 1 == ops.len() {
             let g = db.read().unwrap();
             let fresh = fresh_from(&texts);
+            let fresh_rev = fresh_from_rev(&texts);
             for (f, t) in &texts {
                 let id = FileId(*f as u32 + 1);
                 let a1 = answers(&g, id, t.len());
@@ -259,6 +288,12 @@ pub fn run_history(ops: &[Op], every: usize, concurrent: bool) -> Result<Stats, 
                     break;
                 }
                 let b = answers(&fresh, id, t.len());
+                let b_rev = answers(&fresh_rev, id, t.len());
+                if b != b_rev {
+                    let d = b.iter().zip(b_rev.iter()).find(|(x, y)| x != y).map(|(x, y)| format!("{x} vs {y}")).unwrap_or_default();
+                    result = Err(("fresh-depends-on-load-order".to_string(), format!("after op {oi}: two brand-new databases with the same contents (loaded ascending / descending) differ on file {}: {d}", f + 1), oi));
+                    break;
+                }
                 st.compared += a1.len() as u64;
                 if a1 != b {
                     let (only_inc, only_fresh): (Vec<&String>, Vec<&String>) = (a1.iter().filter(|x| !b.contains(x)).collect(), b.iter().filter(|x| !a1.contains(x)).collect());
@@ -297,8 +332,10 @@ fn gen_ops(rng: &mut Rng) -> Vec<Op> {
     let n = 5 + rng.usize(56);
     let nfiles = 1 + rng.usize(NFILES);
     let mut ops = Vec::new();
-    // start with a plausible project
-    for f in 0..nfiles {
+    // start with a plausible project, loaded in a random order (not by ascending file id)
+    let mut order: Vec<usize> = (0..nfiles).collect();
+    rng.shuffle(&mut order);
+    for f in order {
         ops.push(Op::Set(f, 0, 0));
     }
     for _ in 0..n {
